@@ -23,12 +23,18 @@ def _alarm(s, f):
 
 def sz_instances(tier):
     """molecules with a start node (a prefix token) and Schulz-Zimm distributions"""
-    base = [m for m in I.core_instances() + I.extra_instances() if isinstance(m.elems[0], Token) and len(m.elems) > 1
-            and not m.name.startswith(("neg", "plain", "negative", "target", "handover", "list-into"))]
+    base = [m for m in I.core_instances() + I.extra_instances() if any(isinstance(e, Sto) for e in m.elems)
+            and not m.name.startswith(("neg", "plain", "negative", "target", "handover", "list-into", "triple", "star", "dollar-ids"))]
     extra = [
         M("C[>]", S("[>]", ["[<]CC([>])c1ccccc1"], ["[<]C(C)(C)C", "[>]OC"], "[<]", None), "[<]CCO", name="multi-atom-endgroups"),
         M("N[$]", S("[$]", ["[$]CC([$])C[$]", "[$]CO[$]"], ["[$]C(=O)O", "[$][H]"], "[$]", None), "[$]F", name="branched-dollar-endgroups"),
         M("C[>]", S("[>]", ["[<]CC[>|0 1 0 0 0|]", "[<]CO[>]"], ["[<]CCl"], "[<]", None), "[<]O", name="listed-sz"),
+        # descriptors on two atoms that are bonded to each other inside the token, with another order than their own bond
+        M("C[>]", S("[>]", ["[<]C=C[>]", "[<]CC[>]"], ["[<][H]"], "[<]", None), "[<]O", name="vinylene"),
+        M("C[$]", S("[$]", ["[$]C#C[$]"], ["[$]F"], "[$]", None), "[$]N", name="ethynylene"),
+        # starts inside the object (no prefix), end groups, quaternary carbons, followed by a suffix
+        M(S("[]", ["[<]C(C)(C)C(C)(C)[>]"], ["[<][H]", "[>][H]"], "[<]", None), "[<]O", name="no-prefix-quaternary"),
+        M(S("[]", ["[<]C(C)(C)C(C)(C)[>]"], ["[<][H]", "[>]F"], "[<]", None), S("[>]", ["[<]CC[>]"], ["[<]Cl"], "[<]", None), "[<][H]", name="no-prefix-two-blocks"),
     ]
     out = []
     for m in base + extra:
